@@ -139,6 +139,14 @@ def judge_batch_sizes(gc):
             g.throw(POOL[:, :n].copy())
             k = int(np.sum(g.event_mask))
             got = float(g.mcintegral(np.full(k, np.inf), np.cos(gc["cone"]) * (1 - 1e-15), np.ones(k), 0.0, 1.0, 1.0)[1]) * n if k else 0.0
+            if k:
+                # compute() integrates twice per throw (optical, then radio): on small batches - where the mask may select
+                # everything or a single event - the second and third evaluation repeat the first, bit for bit
+                for rep in (2, 3):
+                    again = float(g.mcintegral(np.full(k, np.inf), np.cos(gc["cone"]) * (1 - 1e-15), np.ones(k), 0.0, 1.0, 1.0)[1]) * n
+                    if again != got:
+                        out.append(("integral_repeatable_on_one_throw", f"N={n} valid={k} evaluation {rep}", got, again))
+                        break
             exp = float(sum(singles[:n]))
             if not (abs(got - exp) <= 1e-11 * max(abs(exp), 1e-300)):
                 out.append(("estimator_independent_of_batch_size", f"N={n}", exp, got))
